@@ -21,13 +21,16 @@ def disable_even_root_of_even_power():
         raise Unavailable("NthRoot._reduce_nth_root_of_mth_power not found")
 
     def patched(self):
+        # decided from the rule's own output and the public .n properties only, so that a refactor of
+        # private attribute names does not silently switch the attribution off
+        result = orig(self)
         try:
-            inner = self._inner
-            if type(inner).__name__ == "NthPower" and self.n % 2 == 0 and inner.n % 2 == 0:
+            if (result is not None and type(result).__name__ == "NthPower"
+                    and self.n % 2 == 0 and result.n % 2 == 0):
                 return None
-        except AttributeError:
+        except (AttributeError, TypeError):
             pass
-        return orig(self)
+        return result
     NthRoot._reduce_nth_root_of_mth_power = patched
 
     def restore():
